@@ -105,3 +105,85 @@ func verifClientPushPeek[T any](h Heap[T], v T) {
 	_ = p
 	return
 }
+
+// ---- PriorityQueue: the map m is the concrete form of the heap's ghost key->index map N ----
+//
+// keyOf (arbitrary in the proofs of internal/heap) is instantiated here with the key of a pair;
+// kk embeds K into the heap's abstract key sort. The indexChanged closure installed by
+// NewPriorityQueue executes m[x.K] = i, which is the heap's callback contract N[keyOf(x)] := i read
+// through kk; since internal/heap cannot name m, every callback invocation updates N and m in
+// lock step. That argument is made on paper: after each call into the heap the map is havocked and
+// the coupling is re-assumed (the havoc/assume pairs below are reported as assumptions).
+
+//@ ufun kk(k) HKey
+//@ axiom forall k1 K, k2 K {kk(k1), kk(k2)} :: kk(k1) == kk(k2) ==> k1 == k2
+//@ axiom forall x KP[K, P] {keyOf(x)} :: keyOf(x) == kk(x.K)
+
+//@ pure posOf(h, k) = h.inner.indexChanged.N[kk(k)]
+//@ pred inHeap(h, k) = inH(h.inner, kk(k))
+//@ pure prio(h, k) = elemOf(h.inner, kk(k)).P
+//@ pred coupled(h) = forall k K {has(h.m, k)} {h.inner.indexChanged.N[kk(k)]} :: (has(h.m, k) <==> inHeap(h, k)) && (has(h.m, k) ==> h.m[k] == posOf(h, k))
+//@ pred pqInv(h) = h.inner != nil && h.m != nil && wfH(h.inner) && h.inner.indexChanged.tracks && coupled(h)
+// what a call into the heap does to the map: callbacks add or overwrite the entries of keys that are
+// in the heap afterwards, with their new index
+//@ pred transfer(h) = forall k K {has(h.m, k)} {h.inner.indexChanged.N[kk(k)]} :: (has(h.m, k) <==> (old(has(h.m, k)) || inHeap(h, k))) && (has(h.m, k) ==> h.m[k] == posOf(h, k))
+
+//@ func PriorityQueue.Len
+//@   props C05
+//@   requires pqInv(h)
+//@   ensures result == len(h.inner.a)
+
+//@ func PriorityQueue.Contains
+//@   props C05
+//@   requires pqInv(h)
+//@   ensures result <==> inHeap(h, k)
+
+//@ func PriorityQueue.Priority
+//@   props C05
+//@   requires pqInv(h)
+//@   ensures inHeap(h, k) ==> result == prio(h, k)
+//@   ensures !inHeap(h, k) ==> result == zero(P)
+
+//@ func PriorityQueue.Peek
+//@   props C05
+//@   requires pqInv(h)
+//@   panics when len(h.inner.a) == 0
+//@   ensures result == h.inner.a[0].K
+//@   ensures forall j int {h.inner.a[j]} :: 0 <= j && j < len(h.inner.a) ==> !h.inner.lessFn(h.inner.a[j], h.inner.a[0])
+
+//@ func PriorityQueue.Update
+//@   props C05
+//@   requires pqInv(h)
+//@   modifies mapof(h.m), h.inner.a, h.inner.gen, elems(h.inner.a), h.inner.indexChanged.N, h.inner.indexChanged.f, h.inner.indexChanged.g, h.inner.indexChanged.base, h.inner.indexChanged.bn, h.inner.indexChanged.gone, h.inner.indexChanged.lo
+//@   after call UpdateAt[0]: havoc mapof(h.m)
+//@   after call UpdateAt[0]: assume transfer(h)
+//@   after call Push[0]: havoc mapof(h.m)
+//@   after call Push[0]: assume transfer(h)
+//@   ensures pqInv(h) && inHeap(h, k) && prio(h, k) == p
+//@   ensures len(h.inner.a) == old(len(h.inner.a)) + (old(inHeap(h, k)) ? 0 : 1)
+//@   ensures forall k2 K {h.inner.indexChanged.N[kk(k2)]} :: k2 != k ==> (inHeap(h, k2) <==> old(inHeap(h, k2))) && (inHeap(h, k2) ==> prio(h, k2) == old(prio(h, k2)))
+
+//@ func PriorityQueue.Pop
+//@   props C05
+//@   requires pqInv(h)
+//@   modifies mapof(h.m), h.inner.a, h.inner.gen, elems(h.inner.a), h.inner.indexChanged.N, h.inner.indexChanged.f, h.inner.indexChanged.g, h.inner.indexChanged.base, h.inner.indexChanged.bn, h.inner.indexChanged.gone, h.inner.indexChanged.lo
+//@   panics when len(h.inner.a) == 0
+//@   after call Pop[0]: assert keyOf(callresult) == kk(callresult.K)
+//@   after call Pop[0]: assert !inHeap(h, callresult.K)
+//@   after call Pop[0]: assert forall k2 K {h.inner.indexChanged.N[kk(k2)]} :: k2 != callresult.K ==> (inHeap(h, k2) <==> old(inHeap(h, k2)))
+//@   after call Pop[0]: havoc mapof(h.m)
+//@   after call Pop[0]: assume transfer(h)
+//@   ensures pqInv(h) && !inHeap(h, result) && result == old(h.inner.a[0].K)
+//@   ensures len(h.inner.a) == old(len(h.inner.a)) - 1
+//@   ensures forall k2 K {h.inner.indexChanged.N[kk(k2)]} :: k2 != result ==> (inHeap(h, k2) <==> old(inHeap(h, k2))) && (inHeap(h, k2) ==> prio(h, k2) == old(prio(h, k2)))
+//@   ensures forall j int {h.inner.a[j]} :: 0 <= j && j < len(h.inner.a) ==> !h.inner.lessFn(h.inner.a[j], old(h.inner.a[0]))
+
+//@ func PriorityQueue.Remove
+//@   props C05
+//@   requires pqInv(h)
+//@   modifies mapof(h.m), h.inner.a, h.inner.gen, elems(h.inner.a), h.inner.indexChanged.N, h.inner.indexChanged.f, h.inner.indexChanged.g, h.inner.indexChanged.base, h.inner.indexChanged.bn, h.inner.indexChanged.gone, h.inner.indexChanged.lo
+//@   after call RemoveAt[0]: havoc mapof(h.m)
+//@   after call RemoveAt[0]: assume transfer(h)
+//@   ensures pqInv(h) && !inHeap(h, k)
+//@   ensures len(h.inner.a) == old(len(h.inner.a)) - (old(inHeap(h, k)) ? 1 : 0)
+//@   ensures forall k2 K {h.inner.indexChanged.N[kk(k2)]} :: k2 != k ==> (inHeap(h, k2) <==> old(inHeap(h, k2))) && (inHeap(h, k2) ==> prio(h, k2) == old(prio(h, k2)))
